@@ -1,7 +1,7 @@
 (* Props/C11.v — Grading rewards and FCT burns are issued exactly as decided, once.
    Only statements, each closed by [exact]; proofs live in Lemmas/. *)
 From Model Require Import Examples.
-From Lemmas Require Import RewardLemmas.
+From Lemmas Require Import RewardLemmas NoWinners SprFilter.
 From Gen Require Import Consts.
 From Coq Require Import String.
 Open Scope Z_scope.
@@ -44,6 +44,55 @@ Theorem C11_spr_grader_version : forall c h,
   spr_version c h = if c_V202EnhanceActivation c <=? h then 7 else if c_SprSignatureActivation c <=? h then 6 else 5.
 Proof. exact spr_version_table. Qed.
 Print Assumptions C11_spr_grader_version.
+
+(* Staking records: which SPR-chain entries can be paid at all.  GradeS hands the staking grader exactly the
+   entries that carry at least two external ids and whose declared staker id (ExtIDs[1]) is one of the 100 largest
+   positive PEG balances of the COMMITTED database; the indices are in chain order, each once ... *)
+Theorem C11_spr_entries_handed_to_the_grader : forall cm si i,
+  In i (spr_incl cm si) <->
+  exists e, nth_error (si_entries si) (Z.to_nat i) = Some e /\ 0 <= i /\ 2 <= se_nexts e /\
+            exists a, se_staker e = Some a /\ In a (top100 cm).
+Proof. exact spr_incl_spec. Qed.
+Print Assumptions C11_spr_entries_handed_to_the_grader.
+(* ... the verdict that pays is the grader's verdict for (version of the height, exactly those entries); an entry
+   whose staker id is not a top holder is never among them ... *)
+Theorem C11_spr_verdict_is_for_the_filtered_entries : forall c cm b v,
+  grade_spr c cm b = Done (Some v) ->
+  exists si, b_spr b = Some si /\
+    find (fun a => (fst (fst a) =? spr_version c (b_height b)) && list_Z_eqb (snd (fst a)) (spr_incl cm si)) (si_alts si)
+      = Some (spr_version c (b_height b), spr_incl cm si, Some v) /\
+    In (spr_version c (b_height b), spr_incl cm si, Some v) (si_alts si) /\
+    (forall i e, 0 <= i -> nth_error (si_entries si) (Z.to_nat i) = Some e ->
+       (forall a, se_staker e = Some a -> ~ In a (top100 cm)) -> ~ In i (spr_incl cm si)).
+Proof. exact grade_spr_uses_filtered_entries. Qed.
+Print Assumptions C11_spr_verdict_is_for_the_filtered_entries.
+(* ... and "top holder" means: at most 100 addresses, each with a positive PEG balance, none twice, and an address
+   with a positive balance is left out only when 100 others hold at least as much. *)
+Theorem C11_top_holders : forall cm,
+  (List.length (top100 cm) <= 100)%nat /\
+  List.NoDup (top100 cm) /\
+  (forall a, In a (top100 cm) -> 0 < get_bal (bal cm) a PTickerPEG) /\
+  (forall a, 0 < get_bal (bal cm) a PTickerPEG -> ~ In a (top100 cm) ->
+     List.length (top100 cm) = 100%nat /\
+     forall a', In a' (top100 cm) -> get_bal (bal cm) a' PTickerPEG >= get_bal (bal cm) a PTickerPEG).
+Proof. exact top100_spec. Qed.
+Print Assumptions C11_top_holders.
+(* Before 2.0 the SPR chain plays no part in a block at all, and from 2.0 on an SPR verdict without winners ("blocks
+   without enough valid records") changes nothing in the block: the whole block function returns what it returns
+   without the SPR entries — nobody is paid and no rates come from them. *)
+Theorem C11_spr_ignored_before_v20 : forall c cm mem b s,
+  b_height b < c_V20HeightActivation c ->
+  sync_block c cm mem b s =
+  sync_block c cm mem {| b_height := b_height b; b_ts := b_ts b; b_opr := b_opr b; b_spr := None;
+                         b_tx := b_tx b; b_factoid := b_factoid b |} s.
+Proof. exact sync_block_ignores_spr_before_v20. Qed.
+Theorem C11_spr_without_winners_pays_nothing : forall c cm mem b s g,
+  grade_spr c cm b = Done g -> no_winners g -> grade_spr_err c cm b = false ->
+  sync_block c cm mem b s = sync_block c cm mem (without_spr b) s.
+Proof. exact sync_block_spr_no_winners_is_no_spr. Qed.
+Print Assumptions C11_spr_without_winners_pays_nothing.
+(* (The signature of a staking record is verified inside the staking grader, an oracle here; that the declared id is
+   not bound to the signing key is the behaviour listed in DESIGN.md section 15.) *)
 
 (* the ladders the translator read off the source are the expected ones *)
 Example C11_ladders_from_source :
